@@ -105,7 +105,7 @@ def case(draw):
     extra = [0]
     for _ in range(draw(st.integers(1, 6))):
         k = draw(st.sampled_from(["edit", "edit", "edit", "delete-out", "salt", "add-edge", "remove-edge", "rewire",
-                                  "fault", "build", "build"]))
+                                  "drop-input", "fault", "build", "build"]))
         outs = [o for e in cur["edges"] for o in e["outs"]]
         if k == "edit":
             s = draw(st.sampled_from(srcs))
@@ -145,11 +145,19 @@ def case(draw):
                 else:
                     e["ins"] = e["ins"] + [new]
                 ops.append({"op": "manifest", "edit": {"k": "rewire", "edge": e["name"], "ins": list(e["ins"])}})
+        elif k == "drop-input" and [e for e in cur["edges"] if len(e["ins"]) >= 2 and not e.get("gen")]:
+            e = draw(st.sampled_from([e for e in cur["edges"] if len(e["ins"]) >= 2 and not e.get("gen")]))
+            e["ins"] = e["ins"][:-1]
+            ops.append({"op": "manifest", "edit": {"k": "rewire", "edge": e["name"], "ins": list(e["ins"])}})
         elif k == "fault" and cur["edges"]:
             e = draw(st.sampled_from(cur["edges"]))
             ops.append({"op": "fault", "cmd": e["name"], "fault": draw(st.sampled_from(["exit 1", "signal 11", "exit 3", "signal 9", "signal 2"]))})
             ops.append({"op": "build", "jobs": draw(st.sampled_from([1, 4])), "expect_fail": True})
             ops.append({"op": "fault", "cmd": e["name"], "fault": None})
+            if len(e["ins"]) >= 2 and not e.get("gen") and draw(st.booleans()):
+                # the manifest is edited before the retry: the failed command's input list gets shorter
+                e["ins"] = e["ins"][:-1]
+                ops.append({"op": "manifest", "edit": {"k": "rewire", "edge": e["name"], "ins": list(e["ins"])}})
         ops.append({"op": "build", "jobs": draw(st.sampled_from([1, 4]))})
     return {"manifest": m, "ops": ops, "db": draw(st.integers(0, 4)) != 0}
 
@@ -170,6 +178,10 @@ def to_desc(m):
             c["deps"] = "makefile"
         if e["restat"]:
             c["restat"] = True
+        if e["rsp"] and not e["depfile"] and not e["restat"] and len(e["outs"]) == 1:
+            # rspfile_content = $in: the explicit inputs, blank-separated; the command reads the file
+            c["rsp"] = " ".join(e["ins"])
+            c["rsp_file"] = e["outs"][0] + ".rsp"
         cmds.append(c)
     for a in m["aliases"]:
         cmds.append({"name": "alias-" + a["name"], "tool": "phony-ninja", "inputs": a["ins"], "outputs": [a["name"]]})
